@@ -87,11 +87,41 @@ class ConcDB:
         return self.tabs[name]
 
 
+def _concretise_pow(t):
+    """replace pow(c1, c2) applications on numerals by their floating-point value (replay only)"""
+    for _ in range(20):
+        t = z3.simplify(t)
+        apps = []
+
+        def walk(x):
+            if z3.is_app(x):
+                if x.decl().name() == "pow" and all(z3.is_rational_value(c) or z3.is_int_value(c) for c in x.children()):
+                    apps.append(x)
+                    return
+                for c in x.children():
+                    walk(c)
+        walk(t)
+        if not apps:
+            return t
+        subs = []
+        for a in apps:
+            b, e = [float(c.numerator_as_long()) / float(c.denominator_as_long()) for c in a.children()]
+            try:
+                val = float(b) ** float(e)
+                if isinstance(val, complex):
+                    raise EngineMismatch("complex power")
+            except (OverflowError, ZeroDivisionError):
+                raise EngineMismatch("power overflow on replay")
+            subs.append((a, z3.RealVal(str(Fraction(val).limit_denominator(10**12)))))
+        t = z3.substitute(t, *subs)
+    return t
+
+
 def ground(v):
     """python value of a ground V"""
-    if z3.is_true(z3.simplify(v.null)):
+    if z3.is_true(z3.simplify(_concretise_pow(v.null))):
         return None
-    t = z3.simplify(num(v))
+    t = _concretise_pow(num(v))
     if z3.is_int_value(t):
         return t.as_long()
     if z3.is_rational_value(t):
@@ -185,7 +215,7 @@ def result_differs(ref, sql, ordered):
 
 
 def check_program(prog, driver, target="sql.sqlite", k=2, schema=None, timeout_ms=20000, compare_names=True,
-                  extra_pre=None):
+                  extra_pre=None, bound=VBOUND):
     """returns Outcome; never raises for expected conditions"""
     schema = schema or SCHEMA
     text = prog.text()
@@ -196,20 +226,28 @@ def check_program(prog, driver, target="sql.sqlite", k=2, schema=None, timeout_m
     if not r.get("ok"):
         return Outcome("rejected", prql=text, detail="; ".join(str(e.get("reason")) for e in r.get("errors", [])))
     sql_text = r["sql"]
+    dialect = "sqlite" if target == "sql.sqlite" else "generic"
     if "ast" not in r:
+        o = structural(prog, text, sql_text, schema, f"emitted SQL does not parse: {r.get('ast_error')}")
+        if o.status == "violation":
+            return o
         return Outcome("sql_unparseable", prql=text, sql=sql_text, detail=r.get("ast_error"))
-    db = SymDB(schema, k)
+    db = SymDB(schema, k, bound)
     pre = P.Pre()
     try:
         ref = P.Ref(db, prog, pre).run()
     except Unsupported as e:
         return Outcome("ref_unsupported", prql=text, sql=sql_text, detail=str(e))
-    sem = S.SqlSem(db, "sqlite")
+    sem = S.SqlSem(db, dialect)
     try:
         sq = sem.run(r["ast"])
     except S.BindError as e:
         return structural(prog, text, sql_text, schema, f"bind: {e}")
     except Unsupported as e:
+        if "LIMIT without ORDER BY" in str(e):
+            o = confirm_concrete(prog, text, sql_text, schema, "LIMIT without ORDER BY while the take is positional")
+            if o is not None:
+                return o
         return Outcome("sql_unsupported", prql=text, sql=sql_text, detail=str(e))
     # schema: arity, then names where PRQL names the column
     if len(ref.cols) != len(sq.cols):
@@ -257,11 +295,15 @@ def check_program(prog, driver, target="sql.sqlite", k=2, schema=None, timeout_m
     if res != z3.sat:
         return Outcome("inconclusive", prql=text, sql=sql_text, detail=str(s.reason_unknown()), solver_s=dt)
     data = db.concrete(s.model())
+    if dialect == "generic" and sem.notes:
+        # the reading that produced the model is not SQLite's: cannot be replayed, hence not reported
+        return Outcome("unreplayable", prql=text, sql=sql_text, data=data, detail="; ".join(sorted(sem.notes)), solver_s=dt)
     return replay(prog, text, sql_text, schema, data, r["ast"], ordered, solver_s=dt)
 
 
 def replay(prog, text, sql_text, schema, data, ast=None, ordered=None, solver_s=0.0):
     """evaluate the reference on the concrete instance, run the SQL on real SQLite, compare"""
+    uses_uf = False
     cdb = ConcDB(schema, data)
     pre = P.Pre()
     ref = P.Ref(cdb, prog, pre).run()
@@ -286,8 +328,9 @@ def replay(prog, text, sql_text, schema, data, ast=None, ordered=None, solver_s=
                                detail=f"encoder disagrees with SQLite: encoder={enc} sqlite={act}")
         except (Unsupported, S.BindError, EngineMismatch) as e:
             return Outcome("mismatch", prql=text, sql=sql_text, data=data, detail=f"encoder failed on replay: {e}")
+    uses_uf = "POW(" in sql_text.upper()
     if rows_match(exp, act, is_ordered):
-        return Outcome("unreproduced", prql=text, sql=sql_text, data=data, expected=exp, actual=act, solver_s=solver_s)
+        return Outcome("unreproduced_uf" if uses_uf else "unreproduced", prql=text, sql=sql_text, data=data, expected=exp, actual=act, solver_s=solver_s)
     return Outcome("violation", kind="result", prql=text, sql=sql_text, data=data,
                    expected=[list(v) for _, v in sorted(exp, key=lambda p: (p[0] or 0))] if is_ordered else [list(v) for _, v in exp],
                    actual=[list(r) for r in act], ordered=is_ordered, solver_s=solver_s,
@@ -312,8 +355,35 @@ def structural(prog, text, sql_text, schema, why, expect_cols=None):
     return Outcome("mismatch", prql=text, sql=sql_text, data=data, detail=f"{why}; but SQLite accepts it and returns {names}")
 
 
-def confirm_order_loss(prog, text, sql_text, schema):
+def concrete_instances(schema, n=6):
+    """a few fixed instances with pairwise distinct, non-null values per column (no ties anywhere)"""
+    import random
+    out = []
+    for s in range(n):
+        rnd = random.Random(1000 + s)
+        data = {}
+        for t, cols in schema.items():
+            k = 3
+            colvals = [rnd.sample(range(-4, 9), k) for _ in cols]
+            data[t] = [tuple(colvals[c][i] for c in range(len(cols))) for i in range(k)]
+        out.append(data)
+    return out
+
+
+def confirm_concrete(prog, text, sql_text, schema, why):
+    """SQL whose result the standard leaves open: report only if real SQLite deviates from the reference
+    on a concrete instance that satisfies the reference preconditions"""
+    for data in concrete_instances(schema):
+        o = replay(prog, text, sql_text, schema, data, None)
+        if o.status == "violation":
+            o.detail = why + "; " + o.detail
+            o.kind = "nondeterministic_sql"
+            return o
     return None
+
+
+def confirm_order_loss(prog, text, sql_text, schema):
+    return confirm_concrete(prog, text, sql_text, schema, "order in effect but no top-level ORDER BY")
 
 
 if __name__ == "__main__":
